@@ -80,9 +80,9 @@ func cmdCheck(args []string) int {
 	return r.report(pd, update)
 }
 
-func loadBaseline(prop string) *Baseline {
+func loadBaseline(prop, tier string) *Baseline {
 	b := &Baseline{Property: prop, Counts: map[string]int{}}
-	data, err := os.ReadFile(filepath.Join(verifDir, "baseline", prop+".json"))
+	data, err := os.ReadFile(filepath.Join(verifDir, "baseline", prop+"."+tier+".json"))
 	if err == nil {
 		_ = json.Unmarshal(data, b)
 	}
@@ -113,7 +113,7 @@ func matchAny(pats []string, name string) bool {
 var contractKinds = map[string]bool{"ensures": true, "requires": true, "inv.init": true, "inv.step": true, "assigns": true, "lemma": true, "frame": true}
 
 func (r *Run) report(pd *propertyDef, update bool) int {
-	base := loadBaseline(r.Property)
+	base := loadBaseline(r.Property, r.Tier)
 	findings := loadFindings()
 	counts := map[string]int{}
 	var failing, excluded, known []*Obligation
@@ -190,7 +190,7 @@ func (r *Run) report(pd *propertyDef, update bool) int {
 		nb.Excluded = dedup(nb.Excluded)
 		_ = os.MkdirAll(filepath.Join(verifDir, "baseline"), 0o755)
 		data, _ := json.MarshalIndent(nb, "", " ")
-		_ = os.WriteFile(filepath.Join(verifDir, "baseline", r.Property+".json"), append(data, '\n'), 0o644)
+		_ = os.WriteFile(filepath.Join(verifDir, "baseline", r.Property+"."+r.Tier+".json"), append(data, '\n'), 0o644)
 		fmt.Printf("baseline updated: %d counts, %d excluded\n", len(nb.Counts), len(nb.Excluded))
 	}
 	// known findings: print each open finding of this property whose obligations fail as recorded
